@@ -90,13 +90,15 @@ pub fn lz4_frame(data: &[u8]) -> Vec<u8> {
     out
 }
 
-pub const BIN_DIR: &str = "/verif/.build/repo/release";
+pub fn bin_dir() -> String {
+    format!("{}/.build/repo/release", crate::core::verif_dir())
+}
 
 /// A private scratch directory under /verif/.build/run, removed on drop.
 pub struct Scratch(pub PathBuf);
 impl Scratch {
     pub fn new(tag: &str) -> Scratch {
-        let p = PathBuf::from(format!("/verif/.build/run/{}-{}-{}", std::process::id(), rayon::current_thread_index().unwrap_or(99), tag));
+        let p = PathBuf::from(format!("{}/.build/run/{}-{}-{}", crate::core::verif_dir(), std::process::id(), rayon::current_thread_index().unwrap_or(99), tag));
         let _ = std::fs::remove_dir_all(&p);
         std::fs::create_dir_all(&p).expect("scratch dir");
         Scratch(p)
@@ -124,7 +126,7 @@ pub struct RunOut {
 pub fn run_binary(bin: &str, dir: &Path, files: &[PathBuf], threads: Option<usize>) -> RunOut {
     let out = dir.join("out.csv");
     let _ = std::fs::remove_file(&out);
-    let mut c = Command::new(format!("{BIN_DIR}/{bin}"));
+    let mut c = Command::new(format!("{}/{bin}", bin_dir()));
     c.current_dir(dir).arg("-o").arg(dir.join("out")).args(files);
     if let Some(t) = threads {
         c.env("RAYON_NUM_THREADS", t.to_string());
